@@ -52,7 +52,10 @@ CHECKS['C08'] = dict(level='translation_validation', ref='4/C08',
 CHECKS['C13'] = dict(level='other', ref='4/C13',
    text="hextb.cpp's own load() and run() execute on the Verilated model built by the real Vhex_pkg constructor chain with VL_RAND_RESET_I returning fresh symbols (every register, net and trigger bit) and all non-image memory one arbitrary SMT array; on every path through the reset window z3 proves memory equal to the loaded image for every word, no system call serviced, registers zero. From the next edge C03 applies.",
    note="Trusted: Verilator 5.006 output and two-state semantics, irsym, z3/cvc5, libverilated/pthread externals as no-ops, the 2^19-iteration memory reset loop cut to one arbitrary array; run() followed for the reset window only (maxCycles 4).")
-NA = {}
+CHECKS['C06'] = dict(level='translation_validation', ref='4/C06',
+   text="By induction from C13 and C03 plus obligations decided here: hextb's load() and hexsim's load() agree on the image words of symbolic files; hextb's handleSyscall equals hexsim's syscall() for symbolic memory and call number and runs exactly once per SVC (run() followed around an SVC); hextb's main returns run()'s value; end-to-end runs of hextb's own run() on the Verilated RTL against hexsim's run() on the same xcmp images with symbolic input bytes.",
+   note="Trusted: Verilator output/semantics, irsym, z3/cvc5, libverilated externals as no-ops, HexSimIO cut to (byte, stream) events on both sides (routing decided in C02), power-on registers zero in the end-to-end runs (independence is C13); n <= 3/16 image words for the loaders, <= 1500 instructions end to end.")
+NA = {'C09': "not decidable by solver-based checking here: the claim is about every byte string driving the whole compiler (lexer, recursive-descent parser, symbol table, four AST passes, code generation, lowering, peephole, assembly) on heap-allocated polymorphic trees; symbolic source text makes the AST shape symbolic and the engine (concrete heap shape per path) could only fork per token - reaching the smallest crashing programs means ~10^6 token prefixes through an interpreter needing seconds per compile; executing the compiler IR on concrete programs would be sanitizer testing, not solver-based checking. Kernels reachable from source text are decided under C01/C04/C07/C11 (DESIGN.md section 5)."}
 ALL = [json.loads(l)['id'] for l in open(os.path.join(V, 'properties.jsonl'))]
 PENDING = "check not built yet in this session (planned in DESIGN.md); not claimed until it exists"
 checks = []
